@@ -354,6 +354,9 @@ func genBadDep(t *rapid.T) BadDep {
 		tail = rapid.SampledFrom([]string{
 			name + " <" + p1 + " <" + p2 + ">", name + " [" + a1 + " [" + a2 + "]", name + " (" + op + " (" + ver + ")", name + " [" + a1 + " (" + op + " " + ver + ")]",
 			name + " <" + p1 + " [" + a1 + "]>", name + " [(" + op + " " + ver + ") <" + p1 + "> [" + a1 + "]", name + " <[" + a1 + " " + a2 + "] <" + p1 + ">", name + " [" + a1 + "> [" + a2 + "]",
+			// ... the opener glued to the item in front of it, or to the '!'
+			name + " <" + p1 + "<" + p2 + ">", name + " [" + a1 + "[" + a2 + "]", name + " [![" + a1 + "]", name + " <!<" + p1 + ">", name + " <" + p1 + "[" + a1 + "]>",
+			name + " [" + a1 + "(" + op + " " + ver + ")]", name + " [" + a1 + "<" + p1 + ">]", name + " <" + p1 + "(" + op + " " + ver + ")>", name + " [!" + a1 + "[!" + a2 + "]]", name + " <" + p1 + "<" + p2 + ">>",
 		}).Draw(t, "v")
 	case "nameless-restriction":
 		// restrictions that restrict nothing: an alternative with clauses but no package name
@@ -396,7 +399,7 @@ func genBadDep(t *rapid.T) BadDep {
 
 var specC04Malformed = Register(&Spec[BadDep]{
 	Prop: "C04", Name: "malformed",
-	Rule: "one corruption of a valid canonical field, each its own class: closing ] ) > or } missing from a construct (at the end of input, or followed by further valid relations or alternatives whose own closers must not be borrowed); a NUL byte anywhere with more text behind it; a known operator with a third operator character glued on ('>==1'); an opener ( [ < inside an open clause of the same alternative; clauses without a package name; a '$' that is not followed by '{'; a ${substvar} followed by anything but ',' '|' or the end (a name, a second substvar, a clause); mixed negation in an arch list; a second (version) clause; a second [arch] list; a ',' or '|' inside an open clause ('[amd64, i386]', '<a | b>', '(>= 1, 2)'); a '!' behind or inside a profile or architecture name (<nocheck!>, [amd64!]); a clause with nothing in it ('(>= )', a ':' without a qualifier, '[!]', '<!>', a '!' followed by a blank); half an operator (U0: a lone '<' '>' '!' '~' '-' '+' in front of the version); an unknown operator not starting with '=' (U1: ~= != >< <> ~ ^ ...) or starting with '=' (U2: == => =<); two names separated only by blanks - optionally preceded (and where sound followed) by valid relations. Oracle: Parse returns (nil, error) and UnmarshalControl returns an error and leaves no relations in a fresh receiver (a receiver that held a field before is empty afterwards or still holds exactly that field); a fixed valid field parsed right afterwards through either entry point comes out as written. Every case is non-trivial; distinct by text.",
+	Rule: "one corruption of a valid canonical field, each its own class: closing ] ) > or } missing from a construct (at the end of input, or followed by further valid relations or alternatives whose own closers must not be borrowed); a NUL byte anywhere with more text behind it; a known operator with a third operator character glued on ('>==1'); an opener ( [ < inside an open clause of the same alternative (behind a blank, or glued to the item in front of it or to a '!'); clauses without a package name; a '$' that is not followed by '{'; a ${substvar} followed by anything but ',' '|' or the end (a name, a second substvar, a clause); mixed negation in an arch list; a second (version) clause; a second [arch] list; a ',' or '|' inside an open clause ('[amd64, i386]', '<a | b>', '(>= 1, 2)'); a '!' behind or inside a profile or architecture name (<nocheck!>, [amd64!]); a clause with nothing in it ('(>= )', a ':' without a qualifier, '[!]', '<!>', a '!' followed by a blank); half an operator (U0: a lone '<' '>' '!' '~' '-' '+' in front of the version); an unknown operator not starting with '=' (U1: ~= != >< <> ~ ^ ...) or starting with '=' (U2: == => =<); two names separated only by blanks - optionally preceded (and where sound followed) by valid relations. Oracle: Parse returns (nil, error) and UnmarshalControl returns an error and leaves no relations in a fresh receiver (a receiver that held a field before is empty afterwards or still holds exactly that field); a fixed valid field parsed right afterwards through either entry point comes out as written. Every case is non-trivial; distinct by text.",
 	Check: func(c BadDep, r *Recorder) error {
 		r.Case(c.Text, true, "malformed:"+c.Class)
 		r.Sample(c)
